@@ -183,6 +183,21 @@ def run_c11(tier, seed, verdict, cov):
     cov['tree_nodes_evaluated'] = total_nodes
     cov['distinct_nontrivial'] = len({(json.dumps(c['fen']), tuple(c['hist']), c['depth']) for c in cases})
     cov['samples'] = samples
+    # the assumption behind "any move order" in Search.tla: the ordering iterator yields every move exactly once
+    op = os.path.join(d, 'order.ndjson')
+    run_harness(['order-trace', '--seed', seed, '--n', 600 if tier == 'quick' else 20000, '--out', op, '--seeds', os.path.join(ROOT, 'seeds')], timeout=3000)
+    r = validate_search(op, 'ORD', big=True)
+    if r['status'] == 'error':
+        log(r.get('detail', '')[-3000:])
+        raise ToolError('SearchTrace (ORD) failed to run')
+    if r['status'] == 'accept':
+        cov['traces_validated_against_impl'] = cov.get('traces_validated_against_impl', 0) + 1
+        cov['move_ordering'] = {'lists_checked': r['nums'][0], 'cached_move_first (informational)': r['nums'][1],
+                                'captures_before_quiet (informational)': r['nums'][2]}
+    else:
+        e = read_events(op, r['line'])[-1]
+        verdict.report({'kind': 'ordering-not-a-permutation', 'moves': e['moves'], 'out': e['out'], 'fails': r['fails']},
+                       {'how': 'the move-ordering iterator dropped or repeated a move (the search would skip or double-count it)', 'event': e})
     # self-test: a wrong score must be rejected
     if not verdict.violations and files:
         p, b = files[-1]
@@ -479,8 +494,33 @@ def run_c16(tier, seed, verdict, cov):
         p = subprocess.run([exe, 'bench'], stdout=subprocess.PIPE, stderr=subprocess.PIPE, text=True, timeout=3000)
         m = re.findall(r'(\d+) nodes', p.stdout)
         return int(m[-1]) if m else -1
-    with cf.ThreadPoolExecutor(max_workers=nb) as ex:
-        bench_nodes = list(ex.map(bench_run, range(nb)))
+    def bench_paused(_):
+        # machine load as the scheduler sees it: the process is descheduled for a few seconds in mid-search
+        import signal
+        p = subprocess.Popen([exe, 'bench'], stdout=subprocess.PIPE, stderr=subprocess.PIPE, text=True)
+        time.sleep(2.0)
+        p.send_signal(signal.SIGSTOP)
+        time.sleep(6.5)
+        p.send_signal(signal.SIGCONT)
+        out, _ = p.communicate(timeout=3000)
+        m = re.findall(r'(\d+) nodes', out)
+        return int(m[-1]) if m else -1
+
+    def bench_pinned(_):
+        # one CPU shared with busy loops (every search takes several times longer)
+        hogs = [subprocess.Popen(['taskset', '-c', '0', 'python3', '-c', 'while True: pass']) for _ in range(4)]
+        try:
+            p = subprocess.run(['taskset', '-c', '0', exe, 'bench'], stdout=subprocess.PIPE, stderr=subprocess.PIPE, text=True, timeout=3000)
+        finally:
+            for h in hogs:
+                h.kill()
+        m = re.findall(r'(\d+) nodes', p.stdout)
+        return int(m[-1]) if m else -1
+    with cf.ThreadPoolExecutor(max_workers=nb + 2) as ex:
+        futs = [ex.submit(bench_run, i) for i in range(nb)] + [ex.submit(bench_paused, 0)]
+        if tier == 'thorough':
+            futs.append(ex.submit(bench_pinned, 0))
+        bench_nodes = [f.result() for f in futs]
     merged = os.path.join(d, 'det-all.ndjson')
     with open(merged, 'w') as fo:
         for o in outs:
